@@ -11,8 +11,8 @@ package rng
 //@ func FixedInt(n int, hint string) (r int)
 //@   property C16
 //@   mode int
-//@   noframe
 //@   may_panic
+//@   modifies ghost(lasthash)
 //@   assume_call Map.Load: result1 ==> typeof(result0) == typeid(int) && 0 <= payload(result0, int) && payload(result0, int) < 2147483648
 //@   assert_call Map.Store: typeof(arg1) == typeid(int) && 0 <= payload(arg1, int) && payload(arg1, int) < 2147483648
 //@   ensures n <= 0 ==> r == 0
@@ -24,8 +24,8 @@ package rng
 //@ func FixedIntV(n int, hint string) (r int)
 //@   property C16
 //@   mode int
-//@   noframe
 //@   may_panic
+//@   modifies ghost(lasthash)
 //@   assume_call Map.Load: result1 ==> typeof(result0) == typeid(int) && 0 <= payload(result0, int) && payload(result0, int) < 2147483648
 //@   assert_call Map.Store: typeof(arg1) == typeid(int) && 0 <= payload(arg1, int) && payload(arg1, int) < 2147483648
 //@   ensures n <= 0 ==> r == 0
